@@ -1,7 +1,10 @@
 (* C17/Model.v — token-level Gallina models of the stream writers/readers of
    src/Utils/IO.cpp, src/MDP/IO.cpp, src/POMDP/IO.cpp (+ include/AIToolbox/POMDP/IO.hpp).
 
-   A stream is the list of its whitespace-separated tokens.  Numbers are abstract: the Section
+   A stream is the list of its whitespace-separated tokens; a token list carries no trailing
+   separator, so "the input ends right after the last token" (eofbit set by a successful
+   extraction) is the ordinary case [rest = []]: an extraction that consumed the last token has
+   succeeded, and only the next extraction fails.  Numbers are abstract: the Section
    variables [show]/[read] stand for `os << double` at precision max_digits10 and `is >> double`,
    [showN]/[readN] for `os << unsigned long` / `is >> size_t`.  A formatted extraction may stop in
    the middle of a token (`is >> size_t` on "1.5" yields 1 and leaves ".5"): [read]/[readN] return
